@@ -119,8 +119,8 @@ def check_equivariance(cfg, model, prop="C07", evals_box=None):
                 df = rel_defect(lhs[t], ref.roll(base_np[t], s, d, lead=1))
                 if df > FLOAT_TOL:
                     return viol(f"{prop}/translation/{cfg['cls']}", f"shift {s}: block {t} relative defect {df:.3g}; config {netgen.cfg_key(cfg)}"), labels, evals, base_np
-    if any(ref.det(g) == -1 for g in elems):
-        labels.append("reflection_applied")
+    if any(ref.det(g) == -1 for g in elems) or not any(ref.det(g) == -1 for g in G):
+        labels.append("reflection_applied")  # (or the group has none)
     return None, labels, evals, base_np
 
 
